@@ -327,6 +327,10 @@ Section Memo.
     end.
 End Memo.
 
+(* level 1 (compile.py:118-121): cache_key = (vf.hash(), (on_demand,)) *)
+Definition keq1 (a b : hval * bool) : bool := hval_eqb (fst a) (fst b) && Bool.eqb (snd a) (snd b).
+Definition keyof1 (T : table) (r : form * bool) : hval * bool := (form_key T (fst r), snd r).
+
 (* compile.py:68: modname = 'mod' + hashlib.shake_128(src.encode()).hexdigest(8) *)
 Definition modname (digest : string -> string) (src : string) : string := ("mod" ++ digest src)%string.
 
